@@ -154,15 +154,21 @@ func (v vec) has(names ...string) bool {
 type specInfo struct {
 	Score10 int  // score * 10
 	Tie     bool // some rounding step had its argument exactly on a boundary
+	// Alt lists the scores (*10) that result when exactly one rounding step
+	// whose argument lies exactly on a boundary goes the other way (v2: half
+	// rounded down; v3.0: a one-decimal argument rounded up; v3.1: truncation
+	// instead of round-to-nearest) and the later steps follow the
+	// published equations from there.
+	Alt []int
 }
 
 // specV2 is the score of the vector by the v2 guide: the environmental score
 // when environmental metrics are present, else the temporal score when
 // temporal metrics are present, else the base score.
 func specV2(v vec) specInfo {
-	var info specInfo
 	expl := mul(rat("20"), v.w2("AV"), v.w2("AC"), v.w2("Au"))
 	env := v.has("CDP", "TD", "CR", "IR", "AR")
+	temporal := env || v.has("E", "RL", "RC")
 	var impact *big.Rat
 	if env {
 		impact = minr(rat("10"), mul(rat("10.41"), sub(one, mul(
@@ -176,19 +182,44 @@ func specV2(v vec) specInfo {
 	if impact.Sign() == 0 {
 		f = rat("0")
 	}
-	base10, t := roundHalfUp10(mul(sub(add(mul(rat("0.6"), impact), mul(rat("0.4"), expl)), rat("1.5")), f))
-	info.Tie = info.Tie || t
-	score10 := base10
-	if env || v.has("E", "RL", "RC") {
-		score10, t = roundHalfUp10(mul(big.NewRat(int64(base10), 10), v.w2("E"), v.w2("RL"), v.w2("RC")))
-		info.Tie = info.Tie || t
+	tenths := func(k int) *big.Rat { return big.NewRat(int64(k), 10) }
+	stepT := func(base10 int) (int, bool) {
+		if !temporal {
+			return base10, false
+		}
+		return roundHalfUp10(mul(tenths(base10), v.w2("E"), v.w2("RL"), v.w2("RC")))
 	}
-	if env {
-		at := big.NewRat(int64(score10), 10)
-		score10, t = roundHalfUp10(mul(add(at, mul(sub(rat("10"), at), v.w2("CDP"))), v.w2("TD")))
-		info.Tie = info.Tie || t
+	stepE := func(t10 int) (int, bool) {
+		if !env {
+			return t10, false
+		}
+		at := tenths(t10)
+		return roundHalfUp10(mul(add(at, mul(sub(rat("10"), at), v.w2("CDP"))), v.w2("TD")))
 	}
-	info.Score10 = score10
+	var info specInfo
+	base10, tb := roundHalfUp10(mul(sub(add(mul(rat("0.6"), impact), mul(rat("0.4"), expl)), rat("1.5")), f))
+	t10, tt := stepT(base10)
+	e10, te := stepE(t10)
+	info.Score10 = e10
+	info.Tie = tb || tt || te
+	down := func(k int) int { // a half-way value rounded toward zero instead of away
+		if k > 0 {
+			return k - 1
+		}
+		return k + 1
+	}
+	if tb {
+		a, _ := stepT(down(base10))
+		a, _ = stepE(a)
+		info.Alt = append(info.Alt, a)
+	}
+	if tt {
+		a, _ := stepE(down(t10))
+		info.Alt = append(info.Alt, a)
+	}
+	if te {
+		info.Alt = append(info.Alt, down(e10))
+	}
 	return info
 }
 
@@ -280,11 +311,26 @@ func specV3(minor int, v vec) specInfo {
 	if changed {
 		s = mul(rat("1.08"), s)
 	}
-	base10, e := roundup(minr(s, rat("10")))
-	info.Tie = info.Tie || e
-	score10, e := roundup(mul(big.NewRat(int64(base10), 10), temporal))
-	info.Tie = info.Tie || e
+	stepT := func(base10 int) (int, bool) { return roundup(mul(big.NewRat(int64(base10), 10), temporal)) }
+	base10, eb := roundup(minr(s, rat("10")))
+	score10, et := stepT(base10)
+	info.Tie = eb || et
 	info.Score10 = score10
+	// the other outcome of a step on an exact boundary: v3.0 one tenth up,
+	// v3.1 (truncation vs round-to-nearest) one tenth down
+	other := func(k int) int {
+		if minor == 0 {
+			return k + 1
+		}
+		return k - 1
+	}
+	if eb {
+		a, _ := stepT(other(base10))
+		info.Alt = append(info.Alt, a)
+	}
+	if et {
+		info.Alt = append(info.Alt, other(score10))
+	}
 	return info
 }
 
